@@ -55,6 +55,25 @@ EdgeRef edge_ref(int kind, double a, double f, const Vtx& p, const Vtx& q, bool 
       double la, lo, S; rh.GenDirect(p.lat, p.lon, q.azi, q.s, Rhumb::ALL | Rhumb::LONG_UNROLL, la, lo, S);
       if (!std::isfinite(lo) || !std::isfinite(S)) { r.ok = false; r.why = "rhumb edge through a pole"; return r; }
       r.s12 = q.s; r.S12 = S; r.dlam = (L)lo - (L)p.lon;
+      // the unrolled longitude change decides the winding number: take it from the defining expression
+      // tan(azi) x (difference of isometric latitudes) (closed form, independent of the library) whenever that is
+      // well-conditioned, and keep the library's value only for its fractional accuracy
+      {
+        auto psi = [&](L latdeg) {
+          L ph = latdeg * ref::DEG_L, sp = sinl(ph), e2 = E.e2;
+          L t = asinhl(tanl(ph));
+          if (e2 > 0) { L e = sqrtl(e2); t -= e * atanhl(e * sp); } else if (e2 < 0) { L e = sqrtl(-e2); t += e * atanl(e * sp); }
+          return t;
+        };
+        L az = remainderl((L)q.azi, 360.0L) * ref::DEG_L;
+        if (std::fabs(la) < 89.9 && std::fabs(p.lat) < 89.9 && fabsl(cosl(az)) > 1e-2L) {
+          L expect = tanl(az) * (psi(la) - psi(p.lat)) / ref::DEG_L;
+          if (std::isfinite((double)expect) && fabsl(expect) < 1e5L) {
+            L k = roundl((r.dlam - expect) / 360);
+            if (k != 0 && fabsl(r.dlam - expect - 360 * k) < 1e-3L) r.dlam -= 360 * k;     // library off by whole turns: the model is not
+          }
+        }
+      }
     } else {
       double s, az, S; rh.Inverse(p.lat, p.lon, q.lat, q.lon, s, az, S);
       L d = remainderl((L)q.lon - (L)p.lon, 360.0L);
